@@ -401,6 +401,18 @@ class VCRuntime:
         rt = self
 
         class _Super:
+            _made = False
+
+            def __init__(s, *a, **k):
+                # the first call constructs this proxy; any later one is the code's own `super().__init__(...)`
+                if not type(s)._made:
+                    type(s)._made = True
+                    return
+                m = _methods(obj).get("super.__init__")
+                if m is None:
+                    raise Unsupported(f"super().__init__ is not modelled for {obj!r}")
+                m(obj, *a, **k)
+
             def __getattr__(s, name):
                 if name.startswith("sym_") or name.startswith("__"):
                     raise AttributeError(name)
